@@ -130,9 +130,69 @@ def cycle_case(item):
     return res
 
 
+def sibling_case(item):
+    """A cycle a -> b -> ... -> a entered at one node, next to an acyclic sibling s that also needs the member a (and waits for it),
+    while the member b asks for `s <next member>` in one list: the request for s cannot be served (s is locked and waits for a), the
+    next member closes the cycle and reports it.  The requester must give up then; waiting for s would never end
+    (s waits for a, a for b, b for this request)."""
+    _, L, bsleep, ssleep, j, keep = item
+    cyc = ['a', 'b'] + ['m%d' % i for i in range(L - 2)]
+    hdr = scen.TRACE_HDR + 'echo "S $1 $$ $PPID" >&9\n'
+    body = 'rc=0\nredo-ifchange %s || rc=$?\necho "RC $1 $$ $rc" >&9\n[ $rc = 0 ] || { echo "E $1 $$ $rc" >&9; exit $rc; }\necho "$1" > "$3"\necho "E $1 $$ 0" >&9\n'
+    files = {'all.do': hdr + body % 'a s', 's.do': hdr + 'sleep %s\n' % ssleep + body % 'a'}
+    for i, n in enumerate(cyc):
+        nxt = cyc[(i + 1) % L]
+        files[n + '.do'] = hdr + (('sleep %s\n' % bsleep + body % ('s ' + nxt)) if n == 'b' else body % nxt)
+    pj = scen.Project(files, 'c12s')
+    anoms = []
+    obs = dict(cycle_runs=1, sibling_cycle_runs=1)
+    sets = {}
+    try:
+        r, _ = pj.run(['redo'] + (['-k'] if keep else []) + ['-j%d' % j, 'all'], timeout=40, stuck_after=4.0)
+        tr = pj.trace_text()
+        rcs = re.findall(r'^RC \S+ \d+ (\d+)', tr, re.M)
+        if r.status == 'timeout':
+            return dict(verdict='inconclusive', why='watchdog without stuck witness: %s' % (r.witness,), sample=dict(item=list(item)))
+        # the configuration this layer is about: s started (and so holds its lock) before b made its request
+        lines = [l.split(' ') for l in tr.split('\n') if l]
+        started = [f[1] for f in lines if f[0] == 'S']
+        obs['sibling_started_before_the_member_asked'] = int('s' in started and 'b' in started)
+        if r.status == 'stuck':
+            anoms.append(dict(key='cycle-hang:sibling-waiting-for-a-member', what='L=%d -j%d%s: stuck, witness %s' % (L, j, ' -k' if keep else '', r.witness)))
+        else:
+            for a in scen.crash_anoms(r, pj.logs_text(), 'cycle'):
+                if a['cls'] == 'crash':
+                    anoms.append(dict(key='cycle-%s:sibling' % a['key'], what=a['what']))
+            if not anoms and r.rc == 0:
+                anoms.append(dict(key='cycle-exit-0:sibling-waiting-for-a-member', what='L=%d -j%d: exit 0' % (L, j)))
+            text = r.err + r.out + pj.logs_text()
+            if not anoms and not (('208' in rcs) or r.rc == 208 or re.search(r'[Cc]yclic', text)):
+                anoms.append(dict(key='cycle-not-identified:sibling-waiting-for-a-member', what='no 208 / cyclic-dependency message; rc=%s nested=%s' % (r.rc, rcs)))
+        sets['top_statuses'] = [str(r.rc)]
+    finally:
+        pj.close()
+    res = dict(verdict='violated' if anoms else 'held', nontrivial=True, shape=common.shash(list(item)),
+               sample=dict(kind='sibling', L=L, bsleep=bsleep, ssleep=ssleep, j=j, keep=keep), obs=obs, sets=sets)
+    if anoms:
+        res['violations'] = anoms
+        res['replay'] = dict(kind='sibling', item=list(item))
+    return res
+
+
+def any_case(item):
+    if item and item[0] == 'sibling':
+        return sibling_case(item)
+    return cycle_case(item)
+
+
 def items(tier):
     out = []
     quick = tier == 'quick'
+    for L in ((3,) if quick else (2, 3, 4, 5)):
+        for bs, ss in ((('0.7', '0.2'), ('0.5', '0.1')) if quick else (('0.7', '0.2'), ('0.5', '0.1'), ('0.9', '0.3'), ('0.6', '0.25'))):
+            for j in (2, 3):
+                for keep in ((False,) if quick else (False, True)):
+                    out.append(('sibling', L, bs, ss, j, keep))
     Ls = (1, 2, 3) if quick else (1, 2, 3, 4, 5, 6)
     for L in Ls:
         for P in ((0, 1, 2) if quick else (0, 1, 2, 3)):
@@ -192,7 +252,8 @@ RULE = ('cycles of length 1..6 (and rings of 7-15) reached through an acyclic pr
         'failure-ignoring scripts, first build and re-run (recorded-graph check), with and without --keep-going (flag for redo, REDO_KEEP_GOING for redo-ifchange); cycles closed by an edit after a successful build (closing node plain, '
         'checksummed, always), also after a history that gives cycle members smaller file ids than their ancestors; plus entry at two nodes at once. Oracle: not stuck '
         '(two quiescent /proc samples with everyone blocked = violation; watchdog alone = inconclusive), no abort, non-zero top-level status '
-        'for strict scripts, and exit status 208 / a cyclic-dependency message at the detecting process. Every case is non-trivial; '
+        'for strict scripts, and exit status 208 / a cyclic-dependency message at the detecting process. Sibling layer: next to the cycle an acyclic sibling that waits for a member, '
+        'while a member asks for `sibling next-member` in one list (-j2/-j3): the requester gives up when the next member reports the cycle instead of waiting for the sibling. Every case is non-trivial; '
         'distinct = parameter tuple.')
 ASSUME = ['bounded-time restatement: terminates without ever being in the stuck state, within a 40 s watchdog']
 
@@ -202,7 +263,7 @@ def main(tier):
     its = items(tier)
     random.Random(common.seed()).shuffle(its)
     deadline = time.time() + (80 if tier == 'quick' else 700)
-    for r in common.pmap(cycle_case, its, deadline=deadline):
+    for r in common.pmap(any_case, its, deadline=deadline):
         col.add(r)
     rc = col.finish(exhaustive=(time.time() < deadline))
     common.cleanup_scratch()
@@ -213,9 +274,12 @@ def replay(path):
     import json
     d = json.load(open(path))
     it = d['replay']['item']
-    it[4] = tuple(it[4])
     common.ensure_built()
-    r = cycle_case(tuple(it))
+    if d['replay'].get('kind') == 'sibling':
+        r = sibling_case(tuple(it))
+    else:
+        it[4] = tuple(it[4])
+        r = cycle_case(tuple(it))
     print(r.get('verdict'), r.get('violations'))
     common.cleanup_scratch()
     if r.get('verdict') == 'violated':
